@@ -1,4 +1,5 @@
 import DirectVerif.Model.Crop
+import DirectVerif.Lemmas.C10Bbox
 /-!
 # C10 — cropping and zero-padding are exact, centred and mutually inverse
 
@@ -125,10 +126,86 @@ theorem bbox_outside_is_fill {α} (fill : α) (xs : List α) (coord : Int) (size
   have : ¬ (0 ≤ coord + ↑i ∧ coord + ↑i < ↑xs.length) := by omega
   simp [this]
 
+/-- **bounding-box crop = addressed window with pad fill, for every box** (inside, overlapping,
+touching or disjoint; any sign of the coordinate). -/
+theorem bbox_correct {α} (fill : α) (xs : List α) (c : Int) (s : Nat) :
+    cropToBbox fill xs c s = .ok (bboxSpec fill xs c s) := by
+  unfold cropToBbox
+  simp only
+  by_cases h0 : bboxLOff c = 0 ∧ bboxROff xs.length c s = 0
+  · rw [if_pos h0]
+    congr 1
+    have hc : 0 ≤ c ∧ c + s ≤ xs.length := by
+      unfold bboxLOff bboxROff at h0
+      obtain ⟨h1, h2⟩ := h0
+      split at h1 <;> split at h2 <;> omega
+    apply List.ext_getElem?
+    intro k
+    rw [bboxRegion_eq, slice_getElem?, bboxSpec_getElem?]
+    by_cases hk : k < s
+    · have e1 : (min (max c 0) ↑xs.length).toNat + k <
+          (min (max (max c 0) (min (c + ↑s) ↑xs.length)) ↑xs.length).toNat := by omega
+      have e2 : 0 ≤ c + ↑k ∧ c + ↑k < ↑xs.length := by omega
+      simp only [e1, hk, e2, and_self, if_true]
+      congr 1; omega
+    · have e1 : ¬ (min (max c 0) ↑xs.length).toNat + k <
+          (min (max (max c 0) (min (c + ↑s) ↑xs.length)) ↑xs.length).toNat := by omega
+      simp only [e1, hk, if_false]
+  · rw [if_neg h0]
+    have hl : bboxLOff c = max (-c) 0 := by unfold bboxLOff; split <;> omega
+    have hr : bboxROff xs.length c s = max (c + s - xs.length) 0 := by unfold bboxROff; split <;> omega
+    have hw : (min (max (bboxLOff c) (↑s - bboxROff (↑xs.length) c ↑s)) ↑s).toNat - (min (bboxLOff c) ↑s).toNat
+        = (bboxRegion xs c s).length := by
+      rw [bboxRegion_length, hl, hr]; omega
+    rw [if_pos hw]
+    congr 1
+    apply List.ext_getElem?
+    intro k
+    rw [bboxSpec_getElem?, List.getElem?_append, List.getElem?_append, List.getElem?_replicate,
+      List.getElem?_replicate]
+    simp only [List.length_append, List.length_replicate]
+    rw [bboxRegion_length, bboxRegion_eq, slice_getElem?, hl, hr]
+    rw [bboxRegion_length, hl, hr] at hw
+    by_cases hk : k < s
+    · simp only [hk, if_true]
+      by_cases hin : 0 ≤ c + ↑k ∧ c + ↑k < ↑xs.length
+      · rw [if_pos hin]
+        have a1 : k < (min (max (-c) 0) ↑s).toNat +
+            ((min (max (max c 0) (min (c + ↑s) ↑xs.length)) ↑xs.length).toNat - (min (max c 0) ↑xs.length).toNat) := by omega
+        have a2 : ¬ k < (min (max (-c) 0) ↑s).toNat := by omega
+        have a3 : (min (max c 0) ↑xs.length).toNat + (k - (min (max (-c) 0) ↑s).toNat) <
+            (min (max (max c 0) (min (c + ↑s) ↑xs.length)) ↑xs.length).toNat := by omega
+        rw [if_pos a1, if_neg a2, if_pos a3]
+        congr 1; omega
+      · rw [if_neg hin]
+        by_cases a2 : k < (min (max (-c) 0) ↑s).toNat
+        · have a1 : k < (min (max (-c) 0) ↑s).toNat +
+            ((min (max (max c 0) (min (c + ↑s) ↑xs.length)) ↑xs.length).toNat - (min (max c 0) ↑xs.length).toNat) := by omega
+          simp only [a1, a2, if_true]
+        · have a1 : ¬ k < (min (max (-c) 0) ↑s).toNat +
+            ((min (max (max c 0) (min (c + ↑s) ↑xs.length)) ↑xs.length).toNat - (min (max c 0) ↑xs.length).toNat) := by omega
+          rw [if_neg a1]
+          have a4 : k - ((min (max (-c) 0) ↑s).toNat +
+            ((min (max (max c 0) (min (c + ↑s) ↑xs.length)) ↑xs.length).toNat - (min (max c 0) ↑xs.length).toNat)) <
+            (s : Int).toNat - (min (max (-c) 0) ↑s).toNat -
+              ((min (max (max (-c) 0) (↑s - max (c + ↑s - ↑xs.length) 0)) ↑s).toNat - (min (max (-c) 0) ↑s).toNat) := by omega
+          rw [if_pos a4]
+    · simp only [hk, if_false]
+      have a1 : ¬ k < (min (max (-c) 0) ↑s).toNat +
+            ((min (max (max c 0) (min (c + ↑s) ↑xs.length)) ↑xs.length).toNat - (min (max c 0) ↑xs.length).toNat) := by omega
+      rw [if_neg a1]
+      have a4 : ¬ k - ((min (max (-c) 0) ↑s).toNat +
+            ((min (max (max c 0) (min (c + ↑s) ↑xs.length)) ↑xs.length).toNat - (min (max c 0) ↑xs.length).toNat)) <
+            (s : Int).toNat - (min (max (-c) 0) ↑s).toNat -
+              ((min (max (max (-c) 0) (↑s - max (c + ↑s - ↑xs.length) 0)) ↑s).toNat - (min (max (-c) 0) ↑s).toNat) := by omega
+      rw [if_neg a4]
+
+
 /-- non-vacuity: hypotheses of the main theorems are met by concrete odd/even cases -/
 example : centerCrop 3 (padTo (0 : Int) 6 [1, 2, 3]) = [1, 2, 3] := by decide
 example : centerCrop 2 (padTo (0 : Int) 7 [1, 2]) = [1, 2] := by decide
 example : padTo (0 : Int) 6 [1, 2, 3] = [0, 1, 2, 3, 0, 0] := by decide
-example : cropToBbox (9 : Int) [0, 1, 2, 3, 4] (-2) 4 = .ok (bboxSpec 9 [0, 1, 2, 3, 4] (-2) 4) := by decide
+example : cropToBbox (9 : Int) [0, 1, 2, 3, 4] (-2) 4 = .ok [9, 9, 0, 1] := by decide
+example : cropToBbox (9 : Int) [0, 1, 2, 3, 4] 7 2 = .ok [9, 9] := by decide   -- disjoint box
 
 end DirectVerif.C10
